@@ -49,7 +49,7 @@ class Obj(object):
 
 def parse(text):
     evs = []
-    for raw in text.splitlines():
+    for ln, raw in enumerate(text.splitlines()):
         t = raw.split()
         if not t:
             continue
@@ -60,7 +60,7 @@ def parse(text):
             clk = float(t[1])
         except (IndexError, ValueError):
             continue
-        evs.append(Ev(k, clk, t[2:], len(evs), False, raw))
+        evs.append(Ev(k, clk, t[2:], ln, False, raw))
     return evs
 
 
@@ -110,10 +110,12 @@ class Stop(Exception):
     pass
 
 
-def check(sc, run, text, report, count):
+def check(sc, run, text, report, count, trace=None):
     """report(key, what) is called at most once (the first violation of the run); returns the number of demands checked
     (0 = trivial run) or None when the run could not be judged (model drift: count('pairing_drift'))."""
     m = Model(sc, run, report, count)
+    if trace is not None:
+        m.trace = trace
     try:
         m.play(reorder(parse(text), run["path"]))
     except Stop:
@@ -152,6 +154,7 @@ class Model(object):
         self.floating = []
         self.fault_dates = set()
         self.started = set()                 # actors whose body began (on_exit callback registered)
+        self.trace = []                      # (what, line number): where demands were satisfied (used by the oracle self-test)
 
     # -- helpers ---------------------------------------------------------------------------------------------------------
     def report(self, key, what):
@@ -444,6 +447,7 @@ class Model(object):
                             % (a, self.host[a], kd["date"], ev.clk))
             self.checked += 1
             self.count("checked.killed_actor_on_exit_failed_true_at_fault_date")
+            self.trace.append(("kill_x", ev.idx))
             return
         if a in self.ended:
             return
@@ -575,6 +579,7 @@ class Model(object):
                     a, kind, self.desc(e["objs"][0]), "/".join(sorted(e["fams"])), exc))
             self.checked += 1
             self.count("checked.exception_at_due_date.%s.%s" % (e["objs"][0].type, kind))
+            self.trace.append(("exc_due", ev.idx))
             for o in e["objs"]:
                 o.ended = True
             return
@@ -611,6 +616,8 @@ class Model(object):
                 self.late(a, k, kind, e, ev)
         if o.doom is None and self.fault_dates:
             self.count("observed.unaffected_activity_completed_after_a_fault")
+            if kind in ("get", "put", "wait", "rexec"):
+                self.trace.append(("plain_ok", ev.idx))
 
     def complete_ok(self, a, k, kind, o, kv, ev):
         o.ended = True
